@@ -57,7 +57,7 @@ impl Prop for Faults {
                 Format::Fasta => prop_oneof![4 => gen::fasta_doc_with(4, 8), 1 => gen::byte_soup(f)].boxed(),
                 Format::Fastq => prop_oneof![3 => gen::fastq_valid_doc(4), 2 => gen::fastq_doc_with(4, false), 1 => gen::byte_soup(f)].boxed(),
             };
-            (gen::input_and_cap(f, input), gen::policy_permissive(), gen::chunks(), gen::interrupts(), vec(super::c04::op(6), 1..14), gen::ek(), gen::payload())
+            (gen::input_and_cap(f, input), prop_oneof![4 => gen::policy_permissive(), 1 => gen::policy_any()], gen::chunks(), gen::interrupts(), vec(super::c04::op(6), 1..14), gen::ek(), gen::payload())
                 .prop_map(move |((input, cap), policy, chunks, interrupts, ops, ek, payload)| Case { format: f, input, cap, policy, chunks, interrupts, ops, ek, only_k: None, payload })
         };
         boxed(prop_oneof![per(Format::Fasta), per(Format::Fastq)])
@@ -96,8 +96,14 @@ impl Prop for Faults {
                 );
             }
         }
-        // the fault-free run itself is what the model says (so "leading records of the input")
-        check_strict(&m, &t0, false)?;
+        // the fault-free run itself is what the model says (so "leading records of the input"); with a policy that
+        // can refuse growth a call may return BufferLimit, after which the strict cursor model does not apply (what
+        // follows an error is C06's subject) - those histories are only used for the fault / interrupt comparison
+        if c.policy.can_refuse() {
+            ctx.class("policy that can refuse growth (fault-free run not compared with the cursor model)");
+        } else {
+            check_strict(&m, &t0, false)?;
+        }
         // 2. a failure at the k-th source call, for every k
         let calls = t0.src.borrow().calls.clone();
         let kk = calls.len();
